@@ -82,7 +82,18 @@ Definition fmt_msec (u : Z) (st : wstate) : wstate :=
 
 Definition fmt_seconds (u : Z) (st : wstate) : wstate := fmt_msec u (push x73 st).
 
-(* the compact branch: [if part > 0 { unit letters; fmtInt }] *)
+(* the compact branch, first half: [if u >= X { part = u / X; u = u % X }] *)
+Definition split_at (u m : Z) : Z * Z := if u >=? m then (u / m, u mod m) else (0, u).
+Definition compact_split (u : Z) : Z * Z * Z * Z * Z * Z * Z :=
+  let '(days, u) := if u >=? day then (u / 24 / hour, u mod day) else (0, u) in
+  let '(hours, u) := split_at u hour in
+  let '(minutes, u) := split_at u minute in
+  let '(seconds, u) := split_at u second in
+  let '(ms, u) := split_at u millisecond in
+  let '(us, u) := split_at u microsecond in
+  (days, hours, minutes, seconds, ms, us, u).
+
+(* the compact branch, second half: [if part > 0 { unit letters; fmtInt }] *)
 Definition fmt_part (v : Z) (unit_rev : bytes) (st : wstate) : wstate :=
   if v >? 0 then fmt_int v (fold_left (fun s c => push c s) unit_rev st) else st.
 
@@ -104,18 +115,7 @@ Definition short_dur (bufsize : Z) (frac : bool) (d : Z) : result bytes :=
         if u >? 0 then fmt_int u (push x68 st) else st
       else st
     else
-      let days := if u >=? day then u / 24 / hour else 0 in
-      let u := if u >=? day then u mod day else u in
-      let hours := if u >=? hour then u / hour else 0 in
-      let u := if u >=? hour then u mod hour else u in
-      let minutes := if u >=? minute then u / minute else 0 in
-      let u := if u >=? minute then u mod minute else u in
-      let seconds := if u >=? second then u / second else 0 in
-      let u := if u >=? second then u mod second else u in
-      let ms := if u >=? millisecond then u / millisecond else 0 in
-      let u := if u >=? millisecond then u mod millisecond else u in
-      let us := if u >=? microsecond then u / microsecond else 0 in
-      let u := if u >=? microsecond then u mod microsecond else u in
+      let '(days, hours, minutes, seconds, ms, us, u) := compact_split u in
       let st := fmt_part u [x73; x6e] st0 in               (* "ns": 's' then 'n' *)
       let st := fmt_part us [x73; xb5; xc2] st in          (* w -= 3; copy(buf[w:], micro-s) *)
       let st := fmt_part ms [x73; x6d] st in               (* "ms" *)
@@ -196,6 +196,8 @@ Definition trunc_u64 (x : float) : Z :=
 Definition frac_op_float (f unit : Z) (scale : float) : Z :=
   trunc_u64 (float_of_u64 f * (float_of_u64 unit / scale))%float.
 
+Inductive comp_res := CErr | CPanic | COk (v : Z) (rest : bytes).
+
 Section Parser.
   (* the fraction operation is a parameter only so that DurP can state what
      the round trip needs from it; parse_dur below instantiates it with the
@@ -203,19 +205,16 @@ Section Parser.
   Variable fop : Z -> Z -> float -> Z.
   Variable units : list (bytes * Z).
 
-  (* the [for s != ""] loop; [d] is the accumulated uint64.  Every round
-     consumes at least one byte, [length s] rounds always suffice
-     (DurP.parse_loop_fuel). *)
-  Fixpoint parse_loop (fuel : nat) (s : bytes) (d : Z) : result Z :=
+  (* one round of the [for s != ""] loop up to (not including) [d += v]:
+     the value of the component and the rest of the string.  Only called
+     with s non-empty. *)
+  Definition parse_component (s : bytes) : comp_res :=
     match s with
-    | [] => Ok d
+    | [] => CErr
     | c :: _ =>
-      match fuel with
-      | O => OutOfFuel
-      | S fuel' =>
-        if negb (is_dd c) then Err                         (* next character must be [0-9.] *)
+        if negb (is_dd c) then CErr                        (* next character must be [0-9.] *)
         else match leading_int s with
-        | None => Err
+        | None => CErr
         | Some (v, s1) =>
           let pre := negb (Nat.eqb (length s) (length s1)) in
           let '(f, scale, post, s2) :=
@@ -227,26 +226,42 @@ Section Parser.
                 else (0, 1%float, false, s1)
             | [] => (0, 1%float, false, s1)
             end in
-          if negb pre && negb post then Err                (* no digits *)
+          if negb pre && negb post then CErr               (* no digits *)
           else
             let (u, s3) := unit_span s2 in
             match u with
-            | [] => Err                                    (* missing unit *)
+            | [] => CErr                                   (* missing unit *)
             | _ :: _ =>
               match lookupB units u with
-              | None => Err                                (* unknown unit *)
+              | None => CErr                               (* unknown unit *)
               | Some unit =>
-                if unit =? 0 then Panic                    (* 1<<63/unit: integer divide by zero *)
-                else if v >? two63 / unit then Err
+                if unit =? 0 then CPanic                   (* 1<<63/unit: integer divide by zero *)
+                else if v >? two63 / unit then CErr
                 else
                   let v1 := u64 (v * unit) in
                   let v2 := if f >? 0 then u64 (v1 + fop f unit scale) else v1 in
-                  if (f >? 0) && (v2 >? two63) then Err
-                  else
-                    let d' := u64 (d + v2) in
-                    if d' >? two63 then Err else parse_loop fuel' s3 d'
+                  if (f >? 0) && (v2 >? two63) then CErr
+                  else COk v2 s3
               end
             end
+        end
+    end.
+
+  (* the loop; [d] is the accumulated uint64.  Every round consumes at least
+     one byte, so [length s] rounds always suffice (DurP.parse_loop_no_fuel_out). *)
+  Fixpoint parse_loop (fuel : nat) (s : bytes) (d : Z) : result Z :=
+    match s with
+    | [] => Ok d
+    | _ :: _ =>
+      match fuel with
+      | O => OutOfFuel
+      | S fuel' =>
+        match parse_component s with
+        | CErr => Err
+        | CPanic => Panic
+        | COk v s3 =>
+            let d' := u64 (d + v) in
+            if d' >? two63 then Err else parse_loop fuel' s3 d'
         end
       end
     end.
